@@ -285,6 +285,13 @@ class ObjectRetrieval(object):
         # At least one more path to explore
         fname = local_path.parts[0]
         tail_path = LocalDepPathUtils.tail(local_path)
+        if fname not in context_mod.__dict__ and hasattr(context_mod, "__path__"):
+            # A submodule of a package that nobody has imported yet in this process: 'import pkg.sub' written
+            # inside a function body has not run when the function is analysed.
+            try:
+                importlib.import_module(f"{context_mod.__name__}.{fname}")
+            except ModuleNotFoundError:
+                pass
         if fname not in context_mod.__dict__:
             mod_keys = sorted(context_mod.__dict__.keys())
             # It should be in the context module, this was assumed to be taken care of
